@@ -150,7 +150,9 @@ def pre(i, tier, pids):
     shutil.rmtree(tmp, ignore_errors=True)
     os.makedirs(tmp)
     try:
-        shutil.copytree("/repo/ioflo", os.path.join(tmp, "ioflo"), ignore=shutil.ignore_patterns("__pycache__"))
+        # committed HEAD, not the working tree: a formal 'run' may have a patch applied to /repo at the same time
+        r = sh("git -C /repo archive HEAD ioflo | tar -x -C %s" % tmp)
+        assert r.returncode == 0, r.stderr
         a = sh(["patch", "-p1", "-s", "-d", tmp, "-i", os.path.join(d, "patch.diff")])
         assert a.returncode == 0, a.stdout + a.stderr
         for pid in pids:
